@@ -70,6 +70,8 @@ def check(prog, rep, tier):
                       'OPEN with H = 0 leaves no session timer armed')
     rep.rule('R03.e', 'hold timer expiry in OpenSent/OpenConfirm/Established sends NOTIFICATION (4,0), closes, Idle')
     rep.rule('R03.f', 'every path that sends OPEN arms the hold timer with the large hold time (240 s)')
+    rep.rule('R03.h', 'a running session stays up: connectionLost of an earlier, replaced connection leaves the state, the '
+                      'timers and the tracked protocol of the live session alone (rule shared with C12 R12.e)')
     rep.rule('R03.g', 'BGPTimer.reset re-arms through reactor.callLater when the previous call is absent, '
                       'called or cancelled; cancel cancels the delayed call')
     rep.assumptions += ['hold times are non-negative integers (OPEN field is unsigned 16 bit, configuration is validated)',
@@ -77,6 +79,9 @@ def check(prog, rep, tier):
     facts = common.env_facts(prog)
     tab = common.get_table(prog, dot_dead=facts['dot_dead'])
     rep.analysed['table_rows'] = sum(len(v) for v in tab.rows.values())
+
+    from .c12 import stale_lost_rule
+    stale_lost_rule(tab, rep, 'R03.h')
 
     # ---------------------------------------------------------------- R03.a
     writers = set()
